@@ -482,7 +482,7 @@ def run(ctx):
         ctx.broken.append(("harness-run", "c17 enum/tokens failed %s" % (err + err2 + err3)[-600:]))
         return
     allrows = wrows + rows + trows
-    spec_cases, nfail = search(ctx, allrows, 6 if quick else 40)
+    spec_cases, nfail = search(ctx, allrows, 10 if quick else 40)
     ctx.extra["search_patterns"] = len(allrows)
     ctx.extra["search_disagreements_all_classified"] = nfail
     spec_leg(ctx, spec_cases)
